@@ -130,6 +130,8 @@ func evID(n blockntfns.BlockNtfn) string {
 	return fmt.Sprintf("%s%d#%d", k, n.Height(), h.Nonce)
 }
 
+func init() { core.Register("C11", RunC11) }
+
 // RunC11 is the engine function for C11.
 func RunC11(t *testing.T, rc *core.RunCtx) {
 	Bubble(t, rc, func() { runC11(rc) })
